@@ -9,60 +9,64 @@ Everything is generic in the closure-body relation `Q`.
 -/
 namespace DarkluaModel.Sem.Heap
 
-structure EnvOK {N : NumOps} (cx : Cx) (β : CellRel) (D : List DName) (env env' : Env N) : Prop where
+structure EnvOK {N : NumOps} (cx : Cx) (β : CellRel N) (D : List DName) (env env' : Env N) : Prop where
   va : env'.varargs = env.varargs
   loc : LocOK cx β D env.locals env'.locals
 
-theorem EnvOK.mono {N : NumOps} {cx : Cx} {β β' : CellRel} {D} {env env' : Env N} (h : EnvOK cx β D env env')
+theorem EnvOK.mono {N : NumOps} {cx : Cx} {β β' : CellRel N} {D} {env env' : Env N} (h : EnvOK cx β D env env')
     (hβ : β.le β') : EnvOK cx β' D env env' := ⟨h.va, h.loc.mono hβ⟩
 
-theorem EnvOK.weaken {N : NumOps} {cx : Cx} {β : CellRel} {D D'} {env env' : Env N} (h : EnvOK cx β D env env')
+theorem EnvOK.weaken {N : NumOps} {cx : Cx} {β : CellRel N} {D D'} {env env' : Env N} (h : EnvOK cx β D env env')
     (hD : DExt D D') : EnvOK cx β D' env env' := ⟨h.va, h.loc.weaken hD⟩
 
 /-- evaluated targets: equal, and storable (a variable target is not dead) -/
-def ATarget {N : NumOps} (D : List DName) : ARel (Target N) := fun _ t t' => t = t' ∧ TargetOK D t
-def ATargets {N : NumOps} (D : List DName) : ARel (List (Target N)) :=
+def ATarget {N : NumOps} (D : List DName) : ARel N (Target N) := fun _ t t' => t = t' ∧ TargetOK D t
+def ATargets {N : NumOps} (D : List DName) : ARel N (List (Target N)) :=
   fun _ t t' => t = t' ∧ ∀ tg ∈ t, TargetOK D tg
 
 def SoundE (Q : QRel) (cx : Cx) (D : List DName) (x y : Expr) : Prop :=
-  ∀ (N : NumOps) (call : CallFn N) (ρ : ExtOracle N) (k : Nat) (env env' : Env N) (σ σ' : State N) (β : CellRel),
+  ∀ (N : NumOps) (call : CallFn N) (ρ : ExtOracle N) (k : Nat) (env env' : Env N) (σ σ' : State N) (β : CellRel N),
     CallOK Q cx call → SRel Q cx β σ σ' → EnvOK cx β D env env' →
       RRel Q cx β AEq (evalE call ρ k env x σ) (evalE call ρ k env' y σ')
 def SoundT (Q : QRel) (cx : Cx) (D : List DName) (x y : Expr) : Prop :=
-  ∀ (N : NumOps) (call : CallFn N) (ρ : ExtOracle N) (k : Nat) (env env' : Env N) (σ σ' : State N) (β : CellRel),
+  ∀ (N : NumOps) (call : CallFn N) (ρ : ExtOracle N) (k : Nat) (env env' : Env N) (σ σ' : State N) (β : CellRel N),
     CallOK Q cx call → SRel Q cx β σ σ' → EnvOK cx β D env env' →
       RRel Q cx β (ATarget D) (evalTarget call ρ k env x σ) (evalTarget call ρ k env' y σ')
 def SoundEs (Q : QRel) (cx : Cx) (D : List DName) (x y : List Expr) : Prop :=
-  ∀ (N : NumOps) (call : CallFn N) (ρ : ExtOracle N) (k : Nat) (env env' : Env N) (σ σ' : State N) (β : CellRel),
+  ∀ (N : NumOps) (call : CallFn N) (ρ : ExtOracle N) (k : Nat) (env env' : Env N) (σ σ' : State N) (β : CellRel N),
     CallOK Q cx call → SRel Q cx β σ σ' → EnvOK cx β D env env' →
       RRel Q cx β AEq (evalEs call ρ k env x σ) (evalEs call ρ k env' y σ')
 def SoundTs (Q : QRel) (cx : Cx) (D : List DName) (x y : List Expr) : Prop :=
-  ∀ (N : NumOps) (call : CallFn N) (ρ : ExtOracle N) (k : Nat) (env env' : Env N) (σ σ' : State N) (β : CellRel),
+  ∀ (N : NumOps) (call : CallFn N) (ρ : ExtOracle N) (k : Nat) (env env' : Env N) (σ σ' : State N) (β : CellRel N),
     CallOK Q cx call → SRel Q cx β σ σ' → EnvOK cx β D env env' →
       RRel Q cx β (ATargets D) (evalTargets call ρ k env x σ) (evalTargets call ρ k env' y σ')
 def SoundElifs (Q : QRel) (cx : Cx) (D : List DName) (x y : List (Expr × Expr)) : Prop :=
-  ∀ (N : NumOps) (call : CallFn N) (ρ : ExtOracle N) (k : Nat) (env env' : Env N) (σ σ' : State N) (β : CellRel),
+  ∀ (N : NumOps) (call : CallFn N) (ρ : ExtOracle N) (k : Nat) (env env' : Env N) (σ σ' : State N) (β : CellRel N),
     CallOK Q cx call → SRel Q cx β σ σ' → EnvOK cx β D env env' →
       RRel Q cx β AEq (evalElifs call ρ k env x σ) (evalElifs call ρ k env' y σ')
 def SoundEntries (Q : QRel) (cx : Cx) (D : List DName) (x y : List Entry) : Prop :=
   ∀ (N : NumOps) (call : CallFn N) (ρ : ExtOracle N) (k : Nat) (env env' : Env N) (t i : Nat) (σ σ' : State N)
-    (β : CellRel), CallOK Q cx call → SRel Q cx β σ σ' → EnvOK cx β D env env' →
+    (β : CellRel N), CallOK Q cx call → SRel Q cx β σ σ' → EnvOK cx β D env env' →
       RRel Q cx β AEq (evalEntries call ρ k env t i x σ) (evalEntries call ρ k env' t i y σ')
 def SoundSegs (Q : QRel) (cx : Cx) (D : List DName) (x y : List Seg) : Prop :=
   ∀ (N : NumOps) (call : CallFn N) (ρ : ExtOracle N) (k : Nat) (env env' : Env N) (acc : List UInt8)
-    (σ σ' : State N) (β : CellRel), CallOK Q cx call → SRel Q cx β σ σ' → EnvOK cx β D env env' →
+    (σ σ' : State N) (β : CellRel N), CallOK Q cx call → SRel Q cx β σ σ' → EnvOK cx β D env env' →
       RRel Q cx β AEq (evalSegs call ρ k env x acc σ) (evalSegs call ρ k env' y acc σ')
 
 variable {Q : QRel} {cx : Cx} {D : List DName}
 
 /-! ### exact steps on the left -/
 
-theorem SoundE.step {a m b} (h : EqE a m) (ih : SoundE Q cx D m b) : SoundE Q cx D a b := by
+theorem SoundE.step {a m b} (h : LeE cx.upto a m) (ih : SoundE Q cx D m b) : SoundE Q cx D a b := by
   intro N call ρ k env env' σ σ' β hc hs he
-  rw [← h N call ρ k env σ]; exact ih N call ρ k env env' σ σ' β hc hs he
-theorem SoundT.step {a m b} (h : EqT a m) (ih : SoundT Q cx D m b) : SoundT Q cx D a b := by
+  cases h N call ρ k env σ with
+  | inl h => rw [h.2]; exact RRel.timeout_left h.1 _
+  | inr h => rw [← h]; exact ih N call ρ k env env' σ σ' β hc hs he
+theorem SoundT.step {a m b} (h : LeT cx.upto a m) (ih : SoundT Q cx D m b) : SoundT Q cx D a b := by
   intro N call ρ k env env' σ σ' β hc hs he
-  rw [← h N call ρ k env σ]; exact ih N call ρ k env env' σ σ' β hc hs he
+  cases h N call ρ k env σ with
+  | inl h => rw [h.2]; exact RRel.timeout_left h.1 _
+  | inr h => rw [← h]; exact ih N call ρ k env env' σ σ' β hc hs he
 
 /-! ### expressions -/
 
